@@ -52,7 +52,7 @@ impl Space for Ffi {
             let c = render(call(|| Calendar::from_utf8(bad.as_bytes()).map(|c| c.identifier())));
             same(out, "Calendar::from_utf8", f, c, || vec![("text", bad.to_string())]);
         }
-        for bad in if i == 0 { vec!["", "ISO8601", "iso8601x", "gregorian"] } else { vec![] } {
+        for bad in if i == 0 { vec!["", "ISO8601", "iso8601x", "gregorian", "2024-01-01[u-ca=hebrew]", "2024-01-01", "2024-03[u-ca=iso8601]", "12:30", "T12:30[u-ca=gregory]", "01-01[u-ca=hebrew]", " iso8601", "iso8601 ", "iso8601\0", "u-ca=hebrew", "[u-ca=hebrew]"] } else { vec![] } {
             let f = render(call(|| fr(fcal::Calendar::from_utf8(bad.as_bytes())).map(|c| c.identifier())));
             let c = render(call(|| Calendar::from_utf8(bad.as_bytes()).map(|c| c.identifier())));
             same(out, "Calendar::from_utf8", f, c, || vec![("text", bad.to_string())]);
@@ -104,6 +104,12 @@ impl Space for Ffi {
                 pairs!(out, n, "Duration::create", da, snap_dur_ffi, snap_dur_core, fdur::Duration::create(f[0], f[1], f[2], f[3], f[4], f[5], f[6], f[7], f[8], f[9]), dur10(*f));
                 pairs!(out, n, "Duration::abs", da, snap_dur_ffi, snap_dur_core, Ok(fd[k].abs()), Ok(cd[k].abs()));
                 // receivers that only from_day_and_time can build: a day of one sign next to a time of the other
+                for day in [0.5f64, -2.25, 1e19, f64::NAN, f64::INFINITY, 4_294_967_296.0] {
+                    let f_r = fdur::Duration::from_day_and_time(day, fd[k].time());
+                    let c_r = temporal_rs::primitive::FiniteF64::try_from(day).map(|dv| Duration::from_day_and_time(dv, cd[k].time()));
+                    let dm = || vec![("duration", format!("day {day} next to the time of {f:?}"))];
+                    pairs!(out, n, "Duration::from_day_and_time", dm, snap_dur_ffi, snap_dur_core, f_r, c_r);
+                }
                 for day in [1.0f64, -1.0, 0.0] {
                     if let (Ok(fm), cm) = (fr(fdur::Duration::from_day_and_time(day, fd[k].time())), Duration::from_day_and_time(temporal_rs::primitive::FiniteF64::try_from(day).unwrap(), cd[k].time())) {
                         let dm = || vec![("duration", format!("day {day} next to the time of {f:?}"))];
@@ -249,6 +255,13 @@ impl Space for Ffi {
         let fdt_r = fr(fdt::PlainDateTime::try_create(y, m, dd, t.0, t.1, t.2, t.3, t.4, t.5, fc));
         let cdt_r = PlainDateTime::try_new(y, m, dd, t.0, t.1, t.2, t.3, t.4, t.5, ccal.clone());
         pairs!(out, n, "PlainDateTime::try_create", attrs, snap_dt_ffi, snap_dt_core, fdt::PlainDateTime::try_create(y, m, dd, t.0, t.1, t.2, t.3, t.4, t.5, fc), PlainDateTime::try_new(y, m, dd, t.0, t.1, t.2, t.3, t.4, t.5, ccal.clone()));
+        // out-of-range fields: create clamps, try_create refuses - each with its own core counterpart
+        for (om, od, oh, omi, ons) in [(m, 30u8.max(dd), t.0, t.1, t.5), (13, dd, t.0, t.1, t.5), (m, dd, 24, t.1, t.5), (m, dd, t.0, 60, t.5), (m, dd, t.0, t.1, 1000), (0, 0, t.0, t.1, t.5), (2, 30, 23, 59, 999)] {
+            pairs!(out, n, "PlainDateTime::try_create", attrs, snap_dt_ffi, snap_dt_core, fdt::PlainDateTime::try_create(y, om, od, oh, omi, t.2, t.3, t.4, ons, fc), PlainDateTime::try_new(y, om, od, oh, omi, t.2, t.3, t.4, ons, ccal.clone()));
+            pairs!(out, n, "PlainDateTime::create", attrs, snap_dt_ffi, snap_dt_core, fdt::PlainDateTime::create(y, om, od, oh, omi, t.2, t.3, t.4, ons, fc), PlainDateTime::new(y, om, od, oh, omi, t.2, t.3, t.4, ons, ccal.clone()));
+            pairs!(out, n, "PlainDate::try_create", attrs, snap_date_ffi, snap_date_core, fdate::PlainDate::try_create(y, om, od, fc), PlainDate::try_new(y, om, od, ccal.clone()));
+            pairs!(out, n, "PlainDate::create", attrs, snap_date_ffi, snap_date_core, fdate::PlainDate::create(y, om, od, fc), PlainDate::new(y, om, od, ccal.clone()));
+        }
         pairs!(out, n, "PlainDateTime::create", attrs, snap_dt_ffi, snap_dt_core, fdt::PlainDateTime::create(y, m, dd.wrapping_add(40), t.0.wrapping_add(24), t.1, t.2, t.3, t.4, t.5.wrapping_add(1000), fc), PlainDateTime::new(y, m, dd.wrapping_add(40), t.0.wrapping_add(24), t.1, t.2, t.3, t.4, t.5.wrapping_add(1000), ccal.clone()));
         if let (Ok(f0), Ok(c0)) = (fdt_r, cdt_r) {
             let of = fr(fdt::PlainDateTime::try_create(2023, 11, 30, 1, 2, 3, 4, 5, 6, fc)).expect("ffi dt");
@@ -323,7 +336,9 @@ impl Space for Ffi {
         }
         for ry in [None, Some(y.clamp(-9999, 9999))] {
             for ov in [ArithmeticOverflow::Constrain, ArithmeticOverflow::Reject] {
-                pairs!(out, n, "PlainMonthDay::create_with_overflow", attrs, snap_md_ffi, snap_md_core, fmd::PlainMonthDay::create_with_overflow(m, dd, fc, f_ov(ov), ry), PlainMonthDay::new_with_overflow(m, dd, ccal.clone(), ov, ry));
+                for (mm, md) in [(m, dd), (0, dd), (m, 0), (0, 0), (13, dd), (m, 40), (2, 30)] {
+                    pairs!(out, n, "PlainMonthDay::create_with_overflow", attrs, snap_md_ffi, snap_md_core, fmd::PlainMonthDay::create_with_overflow(mm, md, fc, f_ov(ov), ry), PlainMonthDay::new_with_overflow(mm, md, ccal.clone(), ov, ry));
+                }
             }
         }
         if let (Ok(f0), Ok(c0)) = (fr(fmd::PlainMonthDay::create_with_overflow(m, dd, fc, f_ov(ArithmeticOverflow::Constrain), None)), PlainMonthDay::new_with_overflow(m, dd, ccal.clone(), ArithmeticOverflow::Constrain, None)) {
